@@ -12,6 +12,8 @@ import (
 	"fmt"
 	"runtime"
 	"runtime/debug"
+	"sort"
+	"strings"
 
 	fwface "github.com/named-data/ndnd/fw/face"
 	enc "github.com/named-data/ndnd/std/encoding"
@@ -160,6 +162,236 @@ func buildLpAlphabet(thorough bool) {
 			lpAlphabet = append(lpAlphabet, i)
 		}
 	}
+	// frames that are not LpPackets at all: bare packets and frames that fail to decode
+	for k := range lpExtraKinds {
+		lpAlphabet = append(lpAlphabet, lpSize()+int64(k))
+	}
+}
+
+// ---- frames outside the LpPacket product: index lpSize()+k in the full frame space ----
+//
+// A face receives more than LpPackets: bare Interests/Data (no link-layer header) and bytes that
+// are no packet at all. They matter for frame SEQUENCES: "a frame that fails to decode changes
+// no forwarder state" is a statement about what the link service holds from EARLIER frames
+// (fragments waiting for reassembly, packets already handed to a forwarding thread).
+var lpExtraKinds = []string{
+	"bare Interest",
+	"bare Data",
+	"undecodable: Interest TLV whose length field exceeds the frame",
+	"undecodable: 96-byte frame, LpPacket header declaring 4096 bytes",
+	"empty frame",
+	"undecodable: bare Interest cut one byte short",
+	"Name TLV (well-formed, neither packet nor LpPacket)",
+}
+
+func lpExtraBytes(k int) []byte {
+	switch k {
+	case 0:
+		return seedInterestMin
+	case 1:
+		return seedDataMin
+	case 2:
+		return []byte{0x05, 0xfd, 0xff, 0xff, 0x07}
+	case 3:
+		b := make([]byte, 96)
+		copy(b, []byte{0x64, 0xfd, 0x10, 0x00, 0x50, 0xfd, 0x0f, 0xfc})
+		for i := 8; i < len(b); i++ {
+			b[i] = byte(0x80 + i)
+		}
+		return b
+	case 4:
+		return []byte{}
+	case 5:
+		return seedInterestMin[:len(seedInterestMin)-1]
+	default:
+		return lpNameTLV
+	}
+}
+
+// lpFrameBytes: the bytes of frame i of the full frame space (LpPacket product, then the extras).
+func lpFrameBytes(n int, i int64) []byte {
+	if i >= lpSize() {
+		return lpExtraBytes(int(i - lpSize()))
+	}
+	return lpEncode(n, lpDecode(i))
+}
+
+func lpFrameString(n int, i int64) string {
+	if i >= lpSize() {
+		return "Frame{" + lpExtraKinds[int(i-lpSize())] + "}"
+	}
+	return lpDecode(i).String(n)
+}
+
+// ---- the transport's receive buffer and the packets already handed to forwarding threads ----
+//
+// Every real transport reads each frame into ONE buffer and hands handleIncomingFrame a slice of
+// it; the buffer is the transport's again when the call returns and the next frame is read over
+// it. The harness does the same: all frames of a history (prefix replay included) go through
+// lpRx.buf, and before a frame is copied in, everything earlier frames left there is overwritten.
+// Packets dispatched by earlier frames of the history stay in the recording threads' queues with
+// a deep fingerprint taken when their frame's handler returned; C04.state compares them again after
+// every later frame: a frame that fails to decode must change neither the link service's dump nor
+// any packet a forwarding thread already holds.
+type lpQueued struct {
+	p    *pktT
+	fp   uint64
+	what string // "Interest/bare", "Data/lp", ...
+}
+
+type lpRxT struct {
+	buf    []byte
+	hi     int // high-water mark of buf since reset
+	queued []lpQueued
+	known  map[*pktT]bool
+}
+
+var lpRx = &lpRxT{buf: make([]byte, 32<<10), known: map[*pktT]bool{}}
+
+func (r *lpRxT) reset() {
+	r.fill(0xdb)
+	r.hi = 0
+	r.queued = r.queued[:0]
+	for k := range r.known {
+		delete(r.known, k)
+	}
+}
+
+func (r *lpRxT) fill(c byte) {
+	b := r.buf[:r.hi]
+	for i := range b {
+		b[i] = c
+	}
+}
+
+// load = the transport reads the next frame: the buffer no longer holds any earlier frame.
+func (r *lpRxT) load(frame []byte) []byte {
+	if len(frame) > len(r.buf) {
+		r.buf = make([]byte, 2*len(frame))
+		r.hi = 0
+	}
+	r.fill(0xdb)
+	n := copy(r.buf, frame)
+	if n > r.hi {
+		r.hi = n
+	}
+	return r.buf[:n:n]
+}
+
+// eachNew calls f for every queued packet not yet recorded.
+func (r *lpRxT) eachNew(f func(p *pktT, data bool)) {
+	for _, t := range recThreads {
+		for _, p := range t.interests {
+			if !r.known[p] {
+				f(p, false)
+			}
+		}
+		for _, p := range t.datas {
+			if !r.known[p] {
+				f(p, true)
+			}
+		}
+	}
+}
+
+// settle records the packets the last frame dispatched and re-reads the fingerprints of the older
+// ones (so that the next comparison is about the next frame only).
+func (r *lpRxT) settle(frame []byte) {
+	for i := range r.queued {
+		r.queued[i].fp = fpPkt(r.queued[i].p)
+	}
+	src := "bare"
+	if len(frame) > 0 && frame[0] == 0x64 {
+		src = "lp"
+	}
+	r.eachNew(func(p *pktT, data bool) {
+		if p == nil {
+			return
+		}
+		kind := "Interest/"
+		if data {
+			kind = "Data/"
+		}
+		r.known[p] = true
+		r.queued = append(r.queued, lpQueued{p: p, fp: fpPkt(p), what: kind + src})
+	})
+}
+
+// changed: which earlier dispatched packet no longer has the fingerprint it had ("" = none).
+func (r *lpRxT) changed() string {
+	for i, q := range r.queued {
+		if fpPkt(q.p) != q.fp {
+			name := ""
+			func() {
+				defer func() { recover() }()
+				if q.p.L3 != nil && q.p.L3.Interest != nil {
+					name = fmt.Sprintf(" name now %x", q.p.L3.Interest.NameV.Bytes())
+				} else if q.p.L3 != nil && q.p.L3.Data != nil {
+					name = fmt.Sprintf(" name now %x", q.p.L3.Data.NameV.Bytes())
+				}
+			}()
+			return fmt.Sprintf("packet %d handed to a forwarding thread earlier (%s, %d bytes)%s", i, q.what, len(q.p.Raw), name)
+		}
+	}
+	return ""
+}
+
+// sig: the part of the dispatch history that belongs to the canonical state of the sequence search
+// (which kinds of packet, received how, forwarding threads already hold).
+func (r *lpRxT) sig() string {
+	if len(r.queued) == 0 {
+		return ""
+	}
+	set := map[string]bool{}
+	for _, q := range r.queued {
+		set[q.what] = true
+	}
+	ks := make([]string, 0, len(set))
+	for k := range set {
+		ks = append(ks, k)
+	}
+	sort.Strings(ks)
+	return " held=" + strings.Join(ks, ",")
+}
+
+// aliased: does anything the forwarder holds (link-service dump, dispatched packets) depend on the
+// CONTENT of the receive buffer right now? Direct test: overwrite the buffer, look again, restore.
+func (r *lpRxT) aliased(l *fwface.NDNLPLinkService) bool {
+	s1, _ := fwface.VerifC04Dump(l)
+	f1 := make([]uint64, len(r.queued))
+	for i, q := range r.queued {
+		f1[i] = fpPkt(q.p)
+	}
+	var extra []uint64
+	r.eachNew(func(p *pktT, _ bool) { extra = append(extra, fpPkt(p)) })
+	save := append([]byte{}, r.buf[:r.hi]...)
+	r.fill(0x5a)
+	s2, _ := fwface.VerifC04Dump(l)
+	dep := s1 != s2
+	for i, q := range r.queued {
+		if fpPkt(q.p) != f1[i] {
+			dep = true
+		}
+	}
+	i := 0
+	r.eachNew(func(p *pktT, _ bool) {
+		if i < len(extra) && fpPkt(p) != extra[i] {
+			dep = true
+		}
+		i++
+	})
+	copy(r.buf, save)
+	return dep
+}
+
+const lpAliasKey = "link service keeps references into the transport's receive buffer: reassembly state / packets already dispatched change when a later frame that fails to decode is received"
+
+// lpNewService: a fresh link service, empty recording threads, a receive buffer holding nothing.
+func lpNewService(cfg int) *fwface.NDNLPLinkService {
+	c := lpConfigs[cfg]
+	setThreads(c.n)
+	lpRx.reset()
+	return fwface.VerifC04NewLinkService(7, c.local, 8800)
 }
 
 type lpState struct {
@@ -170,28 +402,30 @@ type lpState struct {
 }
 
 // lpCheckQueues: everything that reached a forwarding thread must be a decodable packet.
-func lpCheckQueues() string {
-	for _, t := range recThreads {
-		for _, lst := range [][]*pktT{t.interests, t.datas} {
-			for _, p := range lst {
-				if p == nil || p.L3 == nil {
-					return "nil packet dispatched"
-				}
-				if _, _, err := spec.ReadPacket(enc.NewBufferReader(append([]byte{}, p.Raw...))); err != nil {
-					return "dispatched packet does not decode: " + err.Error()
-				}
-				sweepPacket(p.L3) // the forwarder calls accessors on what it is handed (a panic here is caught by lpApply's caller)
-			}
+func lpCheckQueues() (msg string) {
+	lpRx.eachNew(func(p *pktT, _ bool) {
+		if msg != "" {
+			return
 		}
-	}
-	return ""
+		if p == nil || p.L3 == nil {
+			msg = "nil packet dispatched"
+			return
+		}
+		if _, _, err := spec.ReadPacket(enc.NewBufferReader(append([]byte{}, p.Raw...))); err != nil {
+			msg = "dispatched packet does not decode: " + err.Error()
+			return
+		}
+		sweepPacket(p.L3) // the forwarder calls accessors on what it is handed (a panic here is caught by lpApply's caller)
+	})
+	return
 }
 
 type lpApplyResult struct {
 	v     *violation
 	alloc uint64
-	state string
-	q     int
+	state string // dump of the link service
+	q     int    // packets this frame dispatched
+	held  string // lpRx.sig() after this frame
 }
 
 // lpApply feeds one frame to l (threads already installed) with panic recovery, allocation
@@ -200,10 +434,8 @@ func lpApply(l *fwface.NDNLPLinkService, frame []byte, measure bool, before stri
 	if before == "" {
 		before, _ = fwface.VerifC04Dump(l)
 	}
-	for _, t := range recThreads {
-		t.interests, t.datas = t.interests[:0], t.datas[:0]
-	}
-	in := append([]byte{}, frame...)
+	q0 := queued()
+	in := lpRx.load(frame) // the one receive buffer of this face; earlier frames are gone from it
 	var a0 uint64
 	if measure {
 		a0 = totalAlloc()
@@ -227,28 +459,42 @@ func lpApply(l *fwface.NDNLPLinkService, frame []byte, measure bool, before stri
 		return
 	}
 	r.state, _ = fwface.VerifC04Dump(l)
-	r.q = queued()
+	r.q = queued() - q0
 	if measure && r.alloc > uint64(memPerByte*len(frame))+memConst+1024 {
 		r.v = &violation{Clause: "C04.mem", Key: "unbounded allocation (site pending)", NeedAt: true, Alloc: r.alloc,
 			Detail: fmt.Sprintf("handling one %d-byte frame allocated %d bytes", len(frame), r.alloc)}
 		return
 	}
-	if r.q > 0 || r.state != before {
+	earlier := lpRx.changed()
+	if r.q > 0 || r.state != before || earlier != "" {
 		p, _, err := spec.ReadPacket(enc.NewBufferReader(append([]byte{}, frame...)))
+		key, why := "", ""
 		if err != nil {
-			r.v = &violation{Clause: "C04.state", Key: "undecodable frame changed link-service/dispatch state",
-				Detail: fmt.Sprintf("frame does not decode (%v) but queued=%d, state %q -> %q", err, r.q, before, r.state)}
-			return
+			key, why = "undecodable frame changed link-service/dispatch state", fmt.Sprintf("frame does not decode (%v)", err)
+		} else if w := lpInvalidFragmentation(p); w != "" {
+			key, why = "LP frame with invalid fragmentation fields is not dropped cleanly (reassembly state or dispatch changed)", w
 		}
-		if why := lpInvalidFragmentation(p); why != "" {
-			r.v = &violation{Clause: "C04.state", Key: "LP frame with invalid fragmentation fields is not dropped cleanly (reassembly state or dispatch changed)",
-				Detail: fmt.Sprintf("%s, yet queued=%d, state %q -> %q", why, r.q, before, r.state)}
+		if key != "" {
+			det := fmt.Sprintf("%s, yet queued=%d, state %q -> %q", why, r.q, before, r.state)
+			if earlier != "" {
+				key = "frame that fails to decode changes a packet already handed to a forwarding thread"
+				det = fmt.Sprintf("%s, yet %s is no longer what was dispatched; queued=%d, state %q -> %q", why, earlier, r.q, before, r.state)
+			}
+			// one root cause, one key: is what changed a view of the receive buffer?
+			if lpRx.aliased(l) {
+				key = lpAliasKey
+				det += " [the link-service dump / dispatched packets change when the receive buffer alone is overwritten]"
+			}
+			r.v = &violation{Clause: "C04.state", Key: key, Detail: det}
 			return
 		}
 	}
 	if msg := lpCheckQueues(); msg != "" {
 		r.v = &violation{Clause: "C04.state", Key: "undecodable packet dispatched to a forwarding thread", Detail: msg}
+		return
 	}
+	lpRx.settle(frame)
+	r.held = lpRx.sig()
 	return
 }
 
@@ -283,7 +529,7 @@ func lpDescribe(n int, frames []int64) string {
 		if i > 0 {
 			s += " ; "
 		}
-		s += lpDecode(f).String(n)
+		s += lpFrameString(n, f)
 	}
 	return s
 }
@@ -296,9 +542,8 @@ func runLp1(t task, a *acc) {
 		if skip != nil && skip[[2]int64{i, int64(-1 - t.N)}] {
 			continue
 		}
-		setThreads(cfg.n)
-		l := fwface.VerifC04NewLinkService(7, cfg.local, 8800)
-		frame := lpEncode(cfg.n, lpDecode(i))
+		l := lpNewService(t.N)
+		frame := lpFrameBytes(cfg.n, i)
 		mark(t.ID, i, -1-t.N)
 		r := lpApply(l, frame, true, "")
 		a.res.Evals++
@@ -346,7 +591,7 @@ func lpFrameOf(n int, k int64) []byte {
 		lpFrameCache[n] = c
 	}
 	if c[k] == nil {
-		c[k] = lpEncode(n, lpDecode(lpAlphabet[k]))
+		c[k] = lpFrameBytes(n, lpAlphabet[k])
 	}
 	return c[k]
 }
@@ -354,8 +599,7 @@ func lpFrameOf(n int, k int64) []byte {
 // lpFresh builds a link service and replays a frame history on it (no checks).
 func lpFresh(cfg int, pre []int) (l *fwface.NDNLPLinkService, ok bool) {
 	c := lpConfigs[cfg]
-	setThreads(c.n)
-	l = fwface.VerifC04NewLinkService(7, c.local, 8800)
+	l = lpNewService(cfg)
 	ok = true
 	for _, pf := range pre {
 		func() {
@@ -364,7 +608,9 @@ func lpFresh(cfg int, pre []int) (l *fwface.NDNLPLinkService, ok bool) {
 					ok = false
 				}
 			}()
-			fwface.VerifC04Handle(l, lpEncode(c.n, lpDecode(int64(pf))))
+			frame := lpFrameBytes(c.n, int64(pf))
+			fwface.VerifC04Handle(l, lpRx.load(frame))
+			lpRx.settle(frame)
 		}()
 	}
 	return
@@ -445,12 +691,12 @@ func runLpSeq(t task, a *acc) {
 					continue
 				}
 				a.kinds[sigOK]++
-				hsum := sha256.Sum256([]byte(r.state))
+				hsum := sha256.Sum256([]byte(r.state + r.held))
 				hs := hex.EncodeToString(hsum[:10])
 				if !seen[hs] {
 					st := lpState{P: pi, F: f, H: hs}
 					if len(a.res.States) < 2 {
-						st.Dump = r.state
+						st.Dump = r.state + r.held
 					}
 					pend = append(pend, st)
 				}
@@ -515,7 +761,7 @@ func runLpHist(t task, a *acc) {
 		return
 	}
 	last := t.Hist[len(t.Hist)-1]
-	frame := lpEncode(cfg.n, lpDecode(last))
+	frame := lpFrameBytes(cfg.n, last)
 	mark(t.ID, last, -1-t.N)
 	r := lpApply(l, frame, true, "")
 	a.res.Evals++
